@@ -19,8 +19,12 @@ from collections import defaultdict
 ROOT = os.path.dirname(os.path.dirname(os.path.abspath(__file__)))
 
 FAMILIES = [
-    ("F-byte", {"01", "2E", "3E", "4F", "5F", "FE"},
-     "Python models F as carry/zero only (PUSHU/PUSHS F and IR push F&3; POPU/POPS F and RETI restore only C/Z); Rust keeps all eight bits of F"),
+    ("F-byte-restore", {"01", "3E", "5F"},
+     "Python models F as carry/zero only: POPU F / POPS F / RETI restore only C and Z, Rust restores all eight bits of F"),
+    ("F-byte-push", {"2E", "4F"},
+     "Python models F as carry/zero only: PUSHU F / PUSHS F push F & 3, Rust pushes all eight bits"),
+    ("F-byte-IR", {"FE"},
+     "Python models F as carry/zero only: IR pushes F & 3, Rust pushes all eight bits (PC differs only when the pushed frame overlaps the vector)"),
     ("prefixed-return-length", {"06", "07"},
      "RET/RETF after an addressing prefix: Python consumes prefix+opcode (length 2), Rust reports length 1"),
     ("JP-indirect", {"10", "11"},
@@ -50,11 +54,14 @@ FAMILIES = [
 ]
 
 
-FAMILY_FIELDS = {'F-byte': ['F-high-bits', 'PC', 'mem'], 'prefixed-return-length': ['len', 'PC'], 'JP-indirect': ['PC'], 'regpair-arith': ['BA', 'I', 'X', 'Y', 'U', 'S', 'FC', 'FZ'], 'ADC-SBC-carry': ['FC'], 'ADCL-SBCL': ['FC', 'FZ', 'mem'], 'MVL-ext': ['I', 'X', 'Y', 'U', 'S', 'mem'], 'EX-prefixed': ['I', 'mem'], 'BCD': ['FC', 'FZ', 'I', 'mem'], 'MVL-int': ['I', 'X', 'Y', 'U', 'S', 'mem'], 'CMPW-CMPP': ['FC', 'FZ'], 'MV-emem-reg-store': ['X', 'Y', 'U', 'S', 'mem'], 'decimal-shift': ['FZ', 'I', 'mem'], 'RESET-vector': ['PC']}
+FAMILY_FIELDS = {'F-byte-restore': ['F-high-bits'], 'F-byte-push': ['mem'], 'F-byte-IR': ['PC', 'mem'], 'prefixed-return-length': ['len', 'PC'], 'JP-indirect': ['PC'], 'regpair-arith': ['BA', 'I', 'X', 'Y', 'U', 'S', 'FC', 'FZ'], 'ADC-SBC-carry': ['FC'], 'ADCL-SBCL': ['FC', 'FZ', 'mem'], 'MVL-ext': ['I', 'X', 'Y', 'U', 'S', 'mem'], 'EX-prefixed': ['I', 'mem'], 'BCD': ['FC', 'FZ', 'I', 'mem'], 'MVL-int': ['I', 'X', 'Y', 'U', 'S', 'mem'], 'CMPW-CMPP': ['FC', 'FZ'], 'MV-emem-reg-store': ['X', 'Y', 'U', 'S', 'mem'], 'decimal-shift': ['FZ', 'I', 'mem'], 'RESET-vector': ['PC']}
 
 
 # families whose divergence always includes a specific field get an exact pattern instead of 'any subset'
-FAMILY_PATTERNS = {"prefixed-return-length": "re:(?:PC,)?len"}
+FAMILY_PATTERNS = {"prefixed-return-length": "re:(?:PC,)?len",
+                   "F-byte-restore": "F-high-bits",
+                   "F-byte-push": "re:mem\\[(?:emem|imem|mixed)\\]",
+                   "F-byte-IR": "re:(?:PC,)?mem\\[(?:emem|imem|mixed)\\]"}
 
 
 def family(op: str):
